@@ -437,7 +437,7 @@ func runApk(r *hx.Run, rnd *hx.Rand, cfg hx.Config) {
 	if o := scanApk(nil, false); o.err || len(o.tuples) != 0 {
 		r.Fail("", "apk: a layer without lib/apk/db/installed reports packages or fails")
 	}
-	n := cfg.N(300, 4000)
+	n := cfg.N(300, 8000)
 	for i := 0; i < n && !r.Stop(); i++ {
 		size := r0(rnd, i)
 		dis := rnd.Chance(1, 12)
